@@ -17,8 +17,47 @@ KwNames == {"k1", "k2"}
 
 \* f(a1..an, k1=.., k2=..) = base + sum w_i*a_i + sum w_k*v_k ; injective enough to
 \* see argument order and keyword binding in the value
+(***************************************************************************)
+(* An exact, identity-respecting model of the elementary functions (used   *)
+(* by C10): every function value is a rational function of the argument,   *)
+(* chosen so that the algebraic identities between these functions hold    *)
+(* (tan = sin/cos, sin^2+cos^2 = 1, cosh^2-sinh^2 = 1, tanh = sinh/cosh,   *)
+(* expm1 = exp-1), with the half-angle parameter t = u and exp u = 1+u^2.  *)
+(* log is an arbitrary fixed function.  harness/envobjs.py FakeMath is the *)
+(* driver-side mirror.  Values are Fractions.                              *)
+(***************************************************************************)
+MathFns == {"sin", "cos", "tan", "log", "exp", "sinh", "cosh", "tanh", "expm1", "fabs", "copysign"}
+ToFrac(v) == [k |-> "frac", n |-> v.n, d |-> v.d]
+MathApply(fname, args) ==
+    IF \E i \in 1..Len(args) : ~IsNum(args[i]) THEN Unrep
+    ELSE IF (fname = "copysign" /\ Len(args) # 2) \/ (fname # "copysign" /\ Len(args) # 1)
+         THEN Err("TypeError")
+    ELSE LET u == ToFrac(args[1])
+             one == FracV(1, 1)  two == FracV(2, 1)
+             uu == PyBin("*", u, u)
+             ex == PyBin("+", one, uu)                          \* exp u
+             rex == PyBin("/", one, ex)                         \* 1 / exp u
+             sn == PyBin("/", PyBin("*", two, u), PyBin("+", one, uu))
+             cs == PyBin("/", PyBin("-", one, uu), PyBin("+", one, uu))
+             sh == PyBin("/", PyBin("-", ex, rex), two)
+             ch == PyBin("/", PyBin("+", ex, rex), two)
+         IN CASE fname = "sin" -> sn
+              [] fname = "cos" -> cs
+              [] fname = "tan" -> PyBin("/", sn, cs)
+              [] fname = "exp" -> ex
+              [] fname = "expm1" -> PyBin("-", ex, one)
+              [] fname = "sinh" -> sh
+              [] fname = "cosh" -> ch
+              [] fname = "tanh" -> PyBin("/", sh, ch)
+              [] fname = "log" -> PyBin("+", PyBin("*", FracV(3, 1), u), FracV(-1, 2))
+              [] fname = "fabs" -> IF u.n < 0 THEN NumNeg(u) ELSE u
+              [] fname = "copysign" ->
+                    LET a == IF u.n < 0 THEN NumNeg(u) ELSE u IN
+                    IF args[2].n < 0 THEN NumNeg(a) ELSE a
+
 FnApply(fname, args, kws) ==
-    IF Len(args) > 3 \/ (\E i \in 1..Len(kws) : kws[i].name \notin KwNames)
+    IF fname \in MathFns THEN (IF Len(kws) > 0 THEN Err("TypeError") ELSE MathApply(fname, args))
+    ELSE IF Len(args) > 3 \/ (\E i \in 1..Len(kws) : kws[i].name \notin KwNames)
        \/ (\E i, j \in 1..Len(kws) : i # j /\ kws[i].name = kws[j].name)
     THEN Err("TypeError")
     ELSE IF (\E i \in 1..Len(args) : ~IsNum(args[i]))
@@ -33,7 +72,8 @@ FnApply(fname, args, kws) ==
          IN GoK(1, GoP(1, IntV(FnBase(fname))))
 
 ObjAttr(oname, attr) ==
-    IF oname = "o1" /\ attr = "p" THEN IntV(5)
+    IF oname = "math" THEN (IF attr \in MathFns THEN [k |-> "fn", name |-> attr] ELSE Err("AttributeError"))
+    ELSE IF oname = "o1" /\ attr = "p" THEN IntV(5)
     ELSE IF oname = "o1" /\ attr = "q" THEN FracV(1, 2)
     ELSE IF oname = "o2" /\ attr = "p" THEN IntV(-2)
     ELSE Err("AttributeError")
